@@ -195,7 +195,12 @@ func propC01Logger(t *rapid.T) {
 	}
 	c.ent.LoggerName = name
 	for _, round := range c.ctx {
-		lg = lg.With(fieldsOf(round)...)
+		// the field slice handed to With is the caller's scratch slice: recycled as soon as With has returned
+		fs := fieldsOf(round)
+		lg = lg.With(fs...)
+		for j := range fs {
+			fs[j] = zap.String("recycled", "scratch slice")
+		}
 	}
 	nEntries := rapid.IntRange(1, 3).Draw(t, "nEntries")
 	for i := 0; i < nEntries; i++ {
@@ -206,7 +211,11 @@ func propC01Logger(t *rapid.T) {
 				}
 			}()
 			if ce := lg.Check(lvl, c.ent.Message); ce != nil {
-				ce.Write(fieldsOf(c.site)...)
+				fs := fieldsOf(c.site)
+				ce.Write(fs...)
+				for j := range fs {
+					fs[j] = zap.String("recycled", "scratch slice")
+				}
 			} else {
 				t.Fatalf("enabled level %v was not checked in", lvl)
 			}
